@@ -226,6 +226,58 @@ V("c10-attempt-not-counted-for-proxy-path", "C10", RR, "\trpcCtx.Addr = addr\n\t
 V("c10-exhausted-gt", "C10", RR, "return r.attempts >= maxAttempt || (maxAttemptTime > 0 && r.attemptedTime >= maxAttemptTime)", "return r.attempts > maxAttempt+maxAttempt || (maxAttemptTime > 0 && r.attemptedTime >= maxAttemptTime)", "C10.R4")
 V("c10-n-marker-refactor", "C10", RR, "\tif !req.IsRetryRequest && s.vars.sendTimes > 0 {\n\t\treq.IsRetryRequest = true\n\t}\n", "\tisRetry := s.vars.sendTimes > 0\n\tif isRetry {\n\t\treq.IsRetryRequest = true\n\t}\n", "none")
 
+# ---------------------------------------------------------------- C13
+PD = "oracle/oracles/pd.go"
+TXN = "txnkv/transaction/txn.go"
+LR = "txnkv/txnlock/lock_resolver.go"
+V("c13-cas-without-test", "C13", PD, "\t\tif current.tso <= last.tso {\n\t\t\treturn\n\t\t}\n", "", "C13.R1")
+V("c13-cas-lt", "C13", PD, "\t\tif current.tso <= last.tso {", "\t\tif current.tso < last.tso {", "C13.R1")
+V("c13-no-retry", "C13", PD, "\t\tif lastTSPointer.CompareAndSwap(last, current) {\n\t\t\treturn\n\t\t}\n", "\t\tlastTSPointer.CompareAndSwap(last, current)\n\t\treturn\n", "C13.R1")
+V("c13-publish-plus-one", "C13", PD, "\to.setLastTS(ts, opt.TxnScope)\n\treturn ts, nil\n}\n\n// GetAllTSOKeyspaceGroupMinTS", "\to.setLastTS(ts+1, opt.TxnScope)\n\treturn ts, nil\n}\n\n// GetAllTSOKeyspaceGroupMinTS", "C13.R2")
+V("c13-lowres-plus", "C13", PD, "\t\treturn 0, errors.Errorf(\"get low resolution timestamp fail, invalid txnScope = %s\", opt.TxnScope)\n\t}\n\treturn lastTS, nil", "\t\treturn 0, errors.Errorf(\"get low resolution timestamp fail, invalid txnScope = %s\", opt.TxnScope)\n\t}\n\treturn lastTS + 1, nil", "C13.R2")
+V("c13-isexpired-gt", "C13", PD, "return oracle.ExtractPhysical(lastTS) >= oracle.ExtractPhysical(lockTS)+int64(TTL)", "return oracle.ExtractPhysical(lastTS) > oracle.ExtractPhysical(lockTS)+int64(TTL)", "C13.R3")
+V("c13-isexpired-noexist-false", "C13", PD, "\tlastTS, exist := o.getLastTS(opt.TxnScope)\n\tif !exist {\n\t\treturn true\n\t}", "\tlastTS, exist := o.getLastTS(opt.TxnScope)\n\tif !exist {\n\t\treturn false\n\t}", "C13.R3")
+V("c13-commitwait-ge", "C13", TXN, "\tif firstAttemptTS > txn.commitWaitUntilTSO {\n\t\treturn firstAttemptTS, nil", "\tif firstAttemptTS >= txn.commitWaitUntilTSO {\n\t\treturn firstAttemptTS, nil", "C13.R4")
+V("c13-commitwait-loop-lt", "C13", TXN, "for ts := firstAttemptTS; ts <= txn.commitWaitUntilTSO; {", "for ts := firstAttemptTS; ts < txn.commitWaitUntilTSO; {", "C13.R4")
+V("c13-validate-ge", "C13", PD, "\t\t\tif readTS > currentTS {\n\t\t\t\t// It's possible that the caller", "\t\t\tif readTS > currentTS+1 {\n\t\t\t\t// It's possible that the caller", "C13.R5")
+V("c13-n-rename", "C13", PD, "\tts, err := o.getTimestamp(ctx, opt.TxnScope)\n\tif err != nil {\n\t\treturn 0, err\n\t}\n\to.setLastTS(ts, opt.TxnScope)\n\treturn ts, nil", "\tnewTS, err := o.getTimestamp(ctx, opt.TxnScope)\n\tif err != nil {\n\t\treturn 0, err\n\t}\n\to.setLastTS(newTS, opt.TxnScope)\n\treturn newTS, nil", "none")
+# ---------------------------------------------------------------- C01
+V("c01-commit-ts-before-prewrite", "C01", TPC,
+  "\tstart := time.Now()\n\n\terr = c.prewriteMutations(bo, c.mutations)\n",
+  "\tstart := time.Now()\n\tearlyTS, _ := c.txn.GetTimestampForCommit(bo, c.txn.GetScope())\n\tatomic.StoreUint64(&c.commitTS, earlyTS)\n\n\terr = c.prewriteMutations(bo, c.mutations)\n", "C01.R2")
+V("c01-bump-without-plus-one", "C01", TPC, "c.minCommitTSMgr.tryUpdate(latestTS+1, twoPCAccess)", "c.minCommitTSMgr.tryUpdate(latestTS, twoPCAccess)", "C01.R3")
+V("c01-needlin-inverted", "C01", TPC, "if commitTSMayBeCalculated && (c.needLinearizability() || c.txn.commitWaitUntilTSO > 0) {", "if commitTSMayBeCalculated && (!c.needLinearizability() || c.txn.commitWaitUntilTSO > 0) {", "C01.R3")
+V("c01-mincommit-start-no-plus", "C01", PREW, "\t\tminCommitTS = c.startTS + 1\n", "\t\tminCommitTS = c.startTS\n", "C01.R4")
+V("c01-mincommit-gt", "C01", PREW, "\t} else if c.startTS >= minCommitTS {", "\t} else if c.startTS > minCommitTS {", "C01.R4")
+V("c01-mincommit-forupdate-dropped", "C01", PREW,
+  "\tif c.forUpdateTS > 0 && c.forUpdateTS >= minCommitTS {\n\t\tminCommitTS = c.forUpdateTS + 1\n\t} else if c.startTS >= minCommitTS {", "\tif c.startTS >= minCommitTS {", "C01.R4")
+V("c01-async-resp-ignored", "C01", PREW,
+  "\t\t\tif prewriteResp.MinCommitTs > handler.committer.minCommitTSMgr.get() {\n\t\t\t\thandler.committer.minCommitTSMgr.tryUpdate(prewriteResp.MinCommitTs, twoPCAccess)\n\t\t\t}\n", "", "C01.R5")
+V("c01-mgr-not-monotone", "C01", TPC, "\tif newValue > m.value {\n\t\tm.value = newValue\n\t}\n", "\tm.value = newValue\n", "C01.R5")
+V("c01-put-for-presumed", "C01", TPC, "\t\t\t\t\tif flags.HasPresumeKeyNotExists() {\n\t\t\t\t\t\top = kvrpcpb.Op_Insert\n\t\t\t\t\t}\n", "", "C01.R7")
+V("c01-skip-lock-only", "C01", TPC, "\t\t\tif !flags.HasLocked() {\n\t\t\t\tcontinue\n\t\t\t}\n\t\t\top = getLockTypeFromFlags(flags)\n\t\t\tlockCnt++\n\t\t} else {\n\t\t\tvalue = it.Value()", "\t\t\tcontinue\n\t\t} else {\n\t\t\tvalue = it.Value()", "C01.R7")
+V("c01-cne-for-pessimistic", "C01", TPC, "if !txn.IsPessimistic() && flags.HasPresumeKeyNotExists() {", "if flags.HasPresumeKeyNotExists() {", "C01.R7")
+V("c01-start-ts-plus", "C01", "tikv/kv.go", "\tsnapshot := txnsnapshot.NewTiKVSnapshot(s, startTS, s.nextReplicaReadSeed())\n\treturn transaction.NewTiKVTxn(s, snapshot, startTS, options)", "\tsnapshot := txnsnapshot.NewTiKVSnapshot(s, startTS, s.nextReplicaReadSeed())\n\treturn transaction.NewTiKVTxn(s, snapshot, startTS+1, options)", "C01.R1")
+# ---------------------------------------------------------------- C02
+V("c02-secondaries-with-primary", "C02", TPC, "\t\t((actionIsCommit && !c.isAsyncCommit()) || actionIsCleanup || actionIsPessimisticLock) {", "\t\t(actionIsCleanup || actionIsPessimisticLock) {", "C02.R1")
+V("c02-forget-dropped", "C02", TPC, "\t\tbatchBuilder.forgetPrimary()\n", "", "C02.R1")
+V("c02-primary-error-ignored", "C02", TPC, "\t\terr = c.doActionOnBatches(bo, action, batchBuilder.primaryBatch())\n\t\tif err != nil {\n\t\t\treturn err\n\t\t}\n", "\t\terr = c.doActionOnBatches(bo, action, batchBuilder.primaryBatch())\n", "C02.R1")
+V("c02-resolve-with-min-commit", "C02", LR, "\t\tif status.IsCommitted() {\n\t\t\tlreq.CommitVersion = status.CommitTS()\n\t\t}\n\n\t\tif resolveLite {", "\t\tif status.IsCommitted() {\n\t\t\tlreq.CommitVersion = l.MinCommitTS\n\t\t}\n\n\t\tif resolveLite {", "C02.R2")
+V("c02-resolve-live-lock", "C02", LR, "\t\tif status.ttl != 0 && !expiredAsyncCommitLocks {\n\t\t\treturn status, false, nil\n\t\t}\n", "\t\tif status.ttl != 0 && !expiredAsyncCommitLocks && !l.IsPessimistic() {\n\t\t\treturn status, false, nil\n\t\t}\n", "C02.R3")
+V("c02-expired-without-ttl", "C02", LR, "expiredAsyncCommitLocks := status.primaryLock != nil && status.primaryLock.UseAsyncCommit && !forceSyncCommit && ttlExpired", "_ = ttlExpired\n\t\texpiredAsyncCommitLocks := status.primaryLock != nil && status.primaryLock.UseAsyncCommit && !forceSyncCommit", "C02.R3")
+V("c02-cache-unconditionally", "C02", LR, "\t\t\tstatus.commitTS = cmdResp.CommitVersion\n\t\t\tif status.StatusCacheable() {\n\t\t\t\tlr.saveResolved(txnID, status)\n\t\t\t}\n", "\t\t\tstatus.commitTS = cmdResp.CommitVersion\n\t\t\tif status.ttl == 0 {\n\t\t\t\tlr.saveResolved(txnID, status)\n\t\t\t}\n", "C02.R4")
+V("c02-adopt-after-missing", "C02", LR, "\t\tif !data.missingLock {\n\t\t\t// commitTS == 0 => lock has been rolled back.", "\t\tif true {\n\t\t\t// commitTS == 0 => lock has been rolled back.", "C02.R5")
+V("c02-mismatch-accepted", "C02", LR, "\t\tif data.commitTs != commitTS {\n\t\t\treturn errors.Errorf(\"commit TS mismatch in async commit recovery: %v and %v\", data.commitTs, commitTS)\n\t\t}\n", "", "C02.R5")
+# ---------------------------------------------------------------- C06
+V("c06-rollback-filtered-keys", "C06", TXN, "wg := txn.asyncPessimisticRollback(ctx, allKeys, rollbackForUpdateTS)", "wg := txn.asyncPessimisticRollback(ctx, keys, rollbackForUpdateTS)", "C06.R1")
+V("c06-no-rollback-on-keyexists-multi", "C06", TXN, "\t\t\tif len(keys) > 1 || keyMayBeLocked {", "\t\t\tif keyMayBeLocked {", "C06.R1")
+V("c06-commit-init-fail-no-rollback", "C06", TXN, "\t\tif txn.IsPessimistic() {\n\t\t\ttxn.asyncPessimisticRollback(ctx, committer.mutations.GetKeys(), txn.committer.forUpdateTS)\n\t\t}\n\t\treturn err", "\t\treturn err", "C06.R2")
+V("c06-cleanup-skipped-for-async", "C06", TPC, "\t\t} else if !c.isOnePC() {\n\t\t\terr = c.cleanupMutations(", "\t\t} else if !c.isOnePC() && !c.isAsyncCommit() {\n\t\t\terr = c.cleanupMutations(", "C06.R3")
+V("c06-rollback-skips-locks", "C06", TXN, "\tif txn.IsPessimistic() && txn.committer != nil {\n\t\tvar err error\n\t\tif !skipPessimisticRollback {", "\tif txn.IsPessimistic() && txn.committer != nil && txn.committer.prewriteStarted {\n\t\tvar err error\n\t\tif !skipPessimisticRollback {", "C06.R4")
+V("c06-retry-keeps-redundant", "C06", TXN, "\t\tpanic(\"Trying to retry aggressive locking while it's not started\")\n\t}\n\ttxn.cleanupAggressiveLockingRedundantLocks(ctx)\n", "\t\tpanic(\"Trying to retry aggressive locking while it's not started\")\n\t}\n", "C06.R5")
+V("c06-region-error-nil", "C06", "txnkv/transaction/cleanup.go", "\t\terr = c.cleanupMutations(bo, batch.mutations)\n\t\treturn err", "\t\t_ = c.cleanupMutations\n\t\treturn nil", "C06.R6")
+V("c06-bare-go", "C06", TXN, "\twg := new(sync.WaitGroup)\n\twg.Add(1)\n\ttxn.store.WaitGroup().Add(1)\n\tgo func() {\n\t\tdefer txn.store.WaitGroup().Done()\n", "\twg := new(sync.WaitGroup)\n\twg.Add(1)\n\tgo func() {\n", "C06.R7")
+
 if __name__ == "__main__":
     out = os.path.join(os.path.dirname(os.path.abspath(__file__)), "variants.json")
     json.dump(VARS, open(out, "w"), indent=1)
